@@ -335,7 +335,9 @@ void _mzd_ple_a10(mzd_t *A, mzp_t const *P, rci_t const start_row, rci_t const s
     for (int j = 0; j < i; ++j) {
       if ((tmp & m4ri_one << pivots[j])) {
         word const *source = mzd_row(A, start_row + j);
-        for (wi_t w = addblock; w < A->width; ++w) { target[w] ^= source[w]; }
+        for (wi_t w = addblock; w < A->width - 1; ++w) { target[w] ^= source[w]; }
+        /* A may be a window: leave the bits beyond its last column alone */
+        target[A->width - 1] ^= source[A->width - 1] & A->high_bitmask;
       }
     }
   }
